@@ -117,6 +117,9 @@ func (g *typesGen) newStruct(i int, rank int, name string) tgType {
 			ef := pField{Type: ty, Embedded: true}
 			if r.Chance(1, 6) {
 				ef.Tag = `json:"-"` // an embedded field that is never emitted
+			} else if r.Chance(1, 4) {
+				// options without a name: encoding/json still flattens the embedded struct, it stays an allOf member
+				ef.Tag = rng.Pick(r, []string{`json:",inline"`, `json:",omitempty"`})
 			}
 			t.Fields = append(t.Fields, ef)
 		}
@@ -175,6 +178,13 @@ func (g *typesGen) newStruct(i int, rank int, name string) tgType {
 			f.Doc = "doc of " + goName
 		}
 		t.Fields = append(t.Fields, f)
+		if r.Chance(1, 5) && !strings.Contains(f.Tag, `json:"`+jsonName) && !strings.Contains(f.Tag, `json:"-,"`) {
+			// `F0, F0b T`: two names in ONE field declaration are two fields with the same type, tag and comment
+			twin := f
+			twin.Name = f.Name + "b"
+			twin.Joined = true
+			t.Fields = append(t.Fields, twin)
+		}
 	}
 	return t
 }
